@@ -303,7 +303,33 @@ def check_w4(chk, m, fn, wh, fmt_arg, states):
                 chk.ob("W4.derived", "%s %s" % (name, f), False, "field never written", fn.loc, fn.name)
                 continue
             if not is_poly(got, (sf, ch)) or not degree_ok(got, (sf, ch)):
-                chk.unknown("W4.derived", "%s %s" % (name, f), "value %s is not a polynomial in (sfreq, channels)" % fmt(got)[:80])
+                # not a polynomial (a division, a shift): compared with the stated formula on a grid of rates and channel counts
+                # that includes every combination whose TRUE result still fits the member (an intermediate that wraps earlier
+                # than the result does is exactly what such a rewrite risks)
+                bad = None
+                n_ok = 0
+                try:
+                    for rate in (1, 8000, 44100, 48000, 192000, 1000000, 80000000, 0x7fffffff):
+                        for chans in (1, 2, 6, 64, 700, 3000, 65535):
+                            env = {sf: rate, ch: chans}
+                            true_val = paths.eval_concrete(w, env)
+                            exact = {"block_align": bps * chans, "byte_rate": rate * bps * chans}.get(f)
+                            if exact is not None and exact >= (1 << bits):
+                                continue        # the member cannot hold the true value: outside what any formula can deliver
+                            g_ = paths.eval_concrete(got, env) & ((1 << bits) - 1)
+                            if g_ != true_val & ((1 << bits) - 1):
+                                bad = "sfreq=%d, channels=%d gives %d, the formula gives %d" % (rate, chans, g_, true_val & ((1 << bits) - 1))
+                                break
+                            n_ok += 1
+                        if bad:
+                            break
+                except paths.NoValue:
+                    chk.unknown("W4.derived", "%s %s" % (name, f), "value %s is not a polynomial in (sfreq, channels)" % fmt(got)[:80])
+                    continue
+                chk.ob("W4.derived", "%s %s" % (name, f), bad is None,
+                       "equal to the stated formula on every evaluated (rate, channels) whose result fits the member (%d cases; not a "
+                       "polynomial, so not an identity proof)" % n_ok if bad is None else
+                       "differs from the stated formula although the result fits: %s (an intermediate product wraps)" % bad, fn.loc, fn.name)
                 continue
             r = poly_equal(got, w, (sf, ch), bits)
             if r is None:
